@@ -146,9 +146,12 @@ Proof.
   intros E. unfold delivered. rewrite E. unfold set_pc. destruct (Nat.eqb x t); reflexivity.
 Qed.
 
-Lemma step_inv c t : Inv c -> Inv (cstep true c t).
+(* the invariant holds for the pinned code and for the repaired code alike *)
+Lemma step_inv w c a : Inv c -> Inv (cstep true w c a).
 Proof.
   intros I. pose proof I as [D I2]. unfold cstep.
+  destruct a as [t|].
+  2:{ destruct (Nat.eqb (answered c) (length (upwire c))); exact I. }
   destruct (pcs c t) eqn:P.
   - (* PIdle *)
     destruct (holder c) as [h|] eqn:Hh; [exact I|].
@@ -161,15 +164,23 @@ Proof.
   - (* PLocked *)
     assert (Hh : holder c = Some t) by (apply holder_of_critical; [exact I|rewrite P; reflexivity]).
     rewrite Hh, P in I2. destruct I2 as [O A].
-    split; cbn [holder pcs upwire answered].
-    + intros x r. erewrite delivered_set by reflexivity.
-      destruct (Nat.eqb x t); [discriminate|apply D].
-    + rewrite Hh. split.
-      * intros x N. rewrite set_pc_other by exact N. apply O; exact N.
-      * rewrite set_pc_same. exists (upwire c). split; auto.
+    destruct (want c || negb (buffered_once c)); [|destruct w; [exact I|]].
+    + split; cbn [holder pcs upwire answered].
+      * intros x r. erewrite delivered_set by reflexivity.
+        destruct (Nat.eqb x t); [discriminate|apply D].
+      * rewrite Hh. split.
+        -- intros x N. rewrite set_pc_other by exact N. apply O; exact N.
+        -- rewrite set_pc_same. exists (upwire c). split; auto.
+    + (* hyper: connection was not ready -> 503, lock released, nothing written *)
+      split; cbn [holder pcs upwire answered].
+      * intros x r. erewrite delivered_set by reflexivity.
+        destruct (Nat.eqb x t); [discriminate|apply D].
+      * split; [exact A|]. intros x. destruct (Nat.eq_dec x t) as [->|N].
+        -- rewrite set_pc_same. reflexivity.
+        -- rewrite set_pc_other by exact N. apply O; exact N.
   - (* PSent *)
     assert (Hh : holder c = Some t) by (apply holder_of_critical; [exact I|rewrite P; reflexivity]).
-    rewrite Hh, P in I2. destruct I2 as [O (w & W & A)].
+    rewrite Hh, P in I2. destruct I2 as [O (w0 & W & A)].
     rewrite W, A, nth_error_app2, Nat.sub_diag by lia. cbn [nth_error].
     split; cbn [holder pcs upwire answered].
     + intros x r. erewrite delivered_set by reflexivity.
@@ -192,63 +203,153 @@ Proof.
       * rewrite set_pc_same. reflexivity.
       * rewrite set_pc_other by exact N. apply O; exact N.
   - (* PDone *) exact I.
+  - (* PFailed *) exact I.
 Qed.
 
-Lemma run_inv sched : forall c, Inv c -> Inv (crun true c sched).
+Lemma run_inv w sched : forall c, Inv c -> Inv (crun true w c sched).
 Proof.
-  induction sched as [|t sched IH]; intros c I; cbn [crun fold_left]; auto.
+  induction sched as [|a sched IH]; intros c I; cbn [crun fold_left]; auto.
   apply IH. apply step_inv. exact I.
 Qed.
 
-(* for every number of requests and every interleaving of their steps: a request is only ever
-   handed the response that answers it *)
-Theorem fifo sched t r :
-  delivered (crun true cinit sched) t = Some r -> r = t.
-Proof. intros H. exact (proj1 (run_inv sched cinit inv_init) t r H). Qed.
+(* for every number of requests and every interleaving of their steps (and of the connection
+   task's): a request is only ever handed the response that answers it -- pinned and repaired *)
+Theorem fifo w sched t r :
+  delivered (crun true w cinit sched) t = Some r -> r = t.
+Proof. intros H. exact (proj1 (run_inv w sched cinit inv_init) t r H). Qed.
 
 (* mutual exclusion itself: at most one request is between "locked" and "response received" *)
-Theorem mutex_exclusive sched t t' :
-  critical (pcs (crun true cinit sched) t) = true ->
-  critical (pcs (crun true cinit sched) t') = true -> t = t'.
+Theorem mutex_exclusive w sched t t' :
+  critical (pcs (crun true w cinit sched) t) = true ->
+  critical (pcs (crun true w cinit sched) t') = true -> t = t'.
 Proof.
-  intros H H'. pose proof (run_inv sched cinit inv_init) as I.
+  intros H H'. pose proof (run_inv w sched cinit inv_init) as I.
   pose proof (holder_of_critical _ _ I H) as E. pose proof (holder_of_critical _ _ I H') as E'.
   rewrite E in E'. inversion E'. reflexivity.
 Qed.
 
-(* contrast: without the mutex there is an interleaving of two requests in which request 1 is
-   handed the response to request 0 *)
-Lemma fifo_needs_mutex :
-  delivered (crun false cinit [0; 1; 0; 1; 1]%nat) 1%nat = Some 0%nat.
-Proof. vm_compute. reflexivity. Qed.
+(* what the mutex is for: hyper's dispatcher accepts one request at a time, so without the
+   mutex a second request issued while the first is in flight is not mixed up but FAILED
+   ("connection was not ready"); with it, the second request waits its turn *)
+Lemma without_mutex_second_request_fails :
+  pcs (crun false false cinit [Req 0; Req 1; Req 0; Req 1]%nat) 1%nat = PFailed /\
+  pcs (crun true false cinit [Req 0; Req 1; Req 0; Req 1]%nat) 1%nat = PIdle.
+Proof. vm_compute. split; reflexivity. Qed.
 
-(* progress: the sequential schedule (each request runs its four steps) completes them all;
-   shown for three requests in an interleaved order with contention on the lock *)
+(* ---------------------------------------------------------------------------------------- *)
+(* every request is relayed: no answer made up because the upstream connection was not      *)
+(* ready (finding F12)                                                                       *)
+(* ---------------------------------------------------------------------------------------- *)
+(* the pinned code: a request that reaches send_request before the connection task has
+   signalled readiness after the previous exchange is answered 503 and never relayed *)
+Lemma spurious_failure_refuted :
+  exists sched t, pcs (crun true false cinit sched) t = PFailed /\
+                  ~ In t (upwire (crun true false cinit sched)).
+Proof.
+  exists [Req 0; Req 0; Req 0; Req 0; Req 1; Req 1]%nat, 1%nat. vm_compute.
+  split; [reflexivity|]. intros [H|[]]. discriminate.
+Qed.
+
+Definition NoFail (c : conn) : Prop := forall t, pcs c t <> PFailed.
+
+Lemma step_nofail c a : NoFail c -> NoFail (cstep true true c a).
+Proof.
+  intros I. unfold cstep. destruct a as [t|].
+  2:{ destruct (Nat.eqb (answered c) (length (upwire c))); exact I. }
+  destruct (pcs c t) eqn:P; try exact I.
+  - destruct (holder c); [exact I|]. intros x. cbn [pcs]. unfold set_pc.
+    destruct (Nat.eqb x t); [discriminate|apply I].
+  - destruct (want c || negb (buffered_once c)); [|exact I]. intros x. cbn [pcs]. unfold set_pc.
+    destruct (Nat.eqb x t); [discriminate|apply I].
+  - destruct (nth_error (upwire c) (answered c)); [|exact I]. intros x. cbn [pcs]. unfold set_pc.
+    destruct (Nat.eqb x t); [discriminate|apply I].
+  - intros x. cbn [pcs]. unfold set_pc. destruct (Nat.eqb x t); [discriminate|apply I].
+Qed.
+
+(* the repaired code (sender.ready().await before send_request): under every schedule no
+   request is ever failed for lack of readiness *)
+Lemma run_nofail sched : forall c, NoFail c -> NoFail (crun true true c sched).
+Proof.
+  induction sched as [|a sched IH]; intros c I; cbn [crun fold_left]; auto.
+  apply IH. apply step_nofail. exact I.
+Qed.
+
+Theorem no_spurious_failure sched t : pcs (crun true true cinit sched) t <> PFailed.
+Proof. apply run_nofail. intros x. cbn. discriminate. Qed.
+
+(* the pinned code outside the recorded class: when the schedule never lets a send_request
+   overtake the connection task's readiness signal, no request is failed *)
+Definition FailRaced (c : conn) : Prop := forall t, pcs c t = PFailed -> raced c = true.
+
+Lemma step_failraced c a : FailRaced c -> FailRaced (cstep true false c a).
+Proof.
+  intros I. unfold cstep. destruct a as [t|].
+  2:{ destruct (Nat.eqb (answered c) (length (upwire c))); exact I. }
+  destruct (pcs c t) eqn:P; try exact I.
+  - destruct (holder c); [exact I|]. intros x. cbn [pcs raced]. unfold set_pc.
+    destruct (Nat.eqb x t); [discriminate|apply I].
+  - destruct (want c || negb (buffered_once c)).
+    + intros x. cbn [pcs raced]. unfold set_pc. destruct (Nat.eqb x t); [discriminate|apply I].
+    + intros x _. reflexivity.
+  - destruct (nth_error (upwire c) (answered c)); [|exact I]. intros x. cbn [pcs raced]. unfold set_pc.
+    destruct (Nat.eqb x t); [discriminate|apply I].
+  - intros x. cbn [pcs raced]. unfold set_pc. destruct (Nat.eqb x t); [discriminate|apply I].
+Qed.
+
+Lemma run_failraced sched : forall c, FailRaced c -> FailRaced (crun true false c sched).
+Proof.
+  induction sched as [|a sched IH]; intros c I; cbn [crun fold_left]; auto.
+  apply IH. apply step_failraced. exact I.
+Qed.
+
+Theorem no_spurious_failure_partial sched t :
+  KnownClass_C14_send_before_ready sched = false ->
+  pcs (crun true false cinit sched) t <> PFailed.
+Proof.
+  unfold KnownClass_C14_send_before_ready. intros K F.
+  assert (I0 : FailRaced cinit) by (intros x H; cbn in H; discriminate).
+  rewrite (run_failraced sched cinit I0 t F) in K. discriminate.
+Qed.
+
+Lemma known_class_witness :
+  exists sched t, KnownClass_C14_send_before_ready sched = true /\
+                  pcs (crun true false cinit sched) t = PFailed.
+Proof.
+  exists [Req 0; Req 0; Req 0; Req 0; Req 1; Req 1]%nat, 1%nat. vm_compute. split; reflexivity.
+Qed.
+
+(* progress: three requests in an interleaved order with contention on the lock, the
+   connection task signalling readiness between exchanges; and the schedule of the refutation
+   above under the repaired code: request 1 waits, then completes *)
 Lemma fifo_progress :
-  let c := crun true cinit [0; 1; 2; 1; 0; 0; 2; 0; 1; 2; 1; 1; 1; 2; 2; 2; 2]%nat in
-  delivered c 0%nat = Some 0%nat /\ delivered c 1%nat = Some 1%nat /\ delivered c 2%nat = Some 2%nat /\
-  pcs c 0%nat = PDone 0 /\ pcs c 1%nat = PDone 1 /\ pcs c 2%nat = PDone 2 /\ upwire c = [0; 1; 2]%nat.
+  (let c := crun true false cinit
+              [ConnTask; Req 0; Req 1; Req 2; Req 1; Req 0; Req 0; Req 2; Req 0; ConnTask;
+               Req 1; Req 2; Req 1; Req 1; Req 1; ConnTask; Req 2; Req 2; Req 2; Req 2]%nat in
+   pcs c 0%nat = PDone 0 /\ pcs c 1%nat = PDone 1 /\ pcs c 2%nat = PDone 2 /\ upwire c = [0; 1; 2]%nat) /\
+  (let c := crun true true cinit
+              [Req 0; Req 0; Req 0; Req 0; Req 1; Req 1; Req 1; ConnTask; Req 1; Req 1; Req 1]%nat in
+   pcs c 0%nat = PDone 0 /\ pcs c 1%nat = PDone 1 /\ upwire c = [0; 1]%nat).
 Proof. vm_compute. repeat split. Qed.
 
 (* many client connections, each with its own upstream connection *)
 Definition SInv (s : sys) : Prop := forall cid, Inv (s cid).
 
-Lemma sstep_inv s ct : SInv s -> SInv (sstep s ct).
+Lemma sstep_inv w s ct : SInv s -> SInv (sstep w s ct).
 Proof.
   intros I cid. unfold sstep. destruct (Nat.eqb cid (fst ct)) eqn:E.
   - apply step_inv. apply I.
   - apply I.
 Qed.
 
-Lemma srun_inv sched : forall s, SInv s -> SInv (srun s sched).
+Lemma srun_inv w sched : forall s, SInv s -> SInv (srun w s sched).
 Proof.
   induction sched as [|x sched IH]; intros s I; cbn [srun fold_left]; auto.
   apply IH. apply sstep_inv. exact I.
 Qed.
 
-Theorem fifo_connections sched cid t r :
-  delivered (srun sinit sched cid) t = Some r -> r = t.
+Theorem fifo_connections w sched cid t r :
+  delivered (srun w sinit sched cid) t = Some r -> r = t.
 Proof.
   intros H. assert (I : SInv sinit) by (intros x; apply inv_init).
-  exact (proj1 (srun_inv sched sinit I cid) t r H).
+  exact (proj1 (srun_inv w sched sinit I cid) t r H).
 Qed.
